@@ -66,6 +66,16 @@ fn array_chunk(r: &mut Rng) -> Vec<u32> {
 /// low parts of a bitset chunk (> 4096 values, kept below ~9000)
 fn bitset_chunk(r: &mut Rng) -> Vec<u32> {
     let mut v: Vec<u32> = Vec::new();
+    if r.chance(1, 9) {
+        // a completely full chunk (all 65536 values), or a full chunk with a few holes: every word all-ones, the cached
+        // cardinality at its maximum, seeks and nth land in the middle of a solid block
+        v.extend(0..65536u32);
+        for _ in 0..*r.pick(&[0u64, 0, 0, 1, 3]) {
+            let h = *r.pick(&[0u32, 63, 64, 32767, 65535]);
+            v.retain(|&x| x != h);
+        }
+        return v;
+    }
     match r.below(5) {
         0 => {
             // one dense run somewhere
